@@ -209,7 +209,10 @@ private:
       op->stopSource_.request_stop();
 
       if (op->activeOpCount_.fetch_sub(1, std::memory_order_acq_rel) == 1) {
-        // we're the last owner of the operation so deliver its result now
+        // we're the last owner of the operation so deliver its result now;
+        // as on the other path, deregister from the receiver's stop token
+        // first (this destroys *this, which is why op was saved above)
+        op->stopCallback_.reset();
         op->deliver_result();
       }
     }
